@@ -3,6 +3,8 @@
 package path
 
 import (
+	"fmt"
+
 	v "github.com/aml-org/amf-custom-validator/internal/zzverif"
 )
 
@@ -284,3 +286,44 @@ func VerifC16Edits() {
 		v.Assert("C16.sentences-accepted", !sentence)
 	}
 }
+
+// verifC16Compose: two or three concrete predicates (repeats included) glued by symbolic bytes:
+// an optional modifier byte (one of ^ blank * ) |) after each predicate and one operator byte (one of
+// | / blank ^ ( )) between predicates.
+// Reaches sentences of 7..13 characters such as `a.b|a.b^` or `a.b/c.d|a.b` that the
+// all-strings harnesses cannot reach, with the operators and modifiers left to the solver.
+func verifC16Compose(operands int) {
+	pool := []string{"a.b", "c.d"}
+	s := ""
+	for k := 0; k < operands; k++ {
+		if k > 0 {
+			op := v.Bytes(fmt.Sprintf("op%d", k), 1)
+			v.Assume(op[0] == '|' || op[0] == '/' || op[0] == ' ' || op[0] == '^' || op[0] == '(' || op[0] == ')')
+			s += op
+		}
+		s += pool[v.Choice(fmt.Sprintf("pred%d", k), len(pool))]
+		mod := v.Bytes(fmt.Sprintf("mod%d", k), v.Choice(fmt.Sprintf("modlen%d", k), 2))
+		if len(mod) == 1 {
+			v.Assume(mod[0] == '^' || mod[0] == ' ' || mod[0] == '*' || mod[0] == ')' || mod[0] == '|')
+		}
+		s += mod
+	}
+	pp, err, panicked := verifParsePath(s)
+	accepted := !panicked && err == nil
+	ref, sentence := refSentence(trimRightWs(s), 3)
+	if accepted {
+		v.Reach("accepted")
+		v.Assert("C16.accept-only-sentences", sentence)
+		if sentence {
+			v.Assert("C16.structure", renderPath(pp) == ref)
+			v.Assert("C16.source-kept", pp.Source() == s)
+		}
+	} else {
+		v.Reach("rejected")
+		v.Assert("C16.reject-is-error", !panicked && err != nil)
+		v.Assert("C16.sentences-accepted", !sentence)
+	}
+}
+
+func VerifC16Compose2() { verifC16Compose(2) }
+func VerifC16Compose3() { verifC16Compose(3) }
